@@ -420,9 +420,42 @@ def _deps(ck):
                      {"hydro_task_table": f}, key={"kind": "task_table_phase_order"})
 
 
+FORCING_CASES = ["16 16 16 2 2 2 4 5 7", "12 12 12 3 2 2 3 5 9", "12 8 8 1 2 2 2 5 11", "16 16 16 4 4 4 8 5 13"]
+
+
+def forcing_threads(ck, only=None):
+    """the other per-cell update of a hydro step in the driver: the turbulence forcing kick, applied to the subgrids by the driver's own
+    atomic-counter loop.  Sequential reference vs T threads, repeated: bit-identical for every thread count."""
+    exe = os.path.join(ck.scratch, "forcing")
+    ok, out = vf.cxx_build(os.path.join(vf.VERIF, "harness/c10/forcing_harness.cpp"), exe, openmp=True, extra=["-Wl,--no-as-needed", "-lmpi_cxx", "-lmpi"])
+    if not ok:
+        ck.breaks.append("forcing harness does not compile against AlveliusTurbulenceForcing / HydroDensitySubGrid:\n" + out[-1500:])
+        return 0
+    n = 0
+    for line in ([only] if only else FORCING_CASES):
+        rc, res = vf.run_lines([exe], line + "\n", timeout=600)
+        rows = [l.split() for l in res if l.startswith("R ")]
+        k = [l.split() for l in res if l.startswith("K ")]
+        if rc != 0 or not rows or not k:
+            ck.breaks.append("forcing harness failed on %r (rc=%d)" % (line, rc))
+            continue
+        if int(k[0][1]) == 0:
+            ck.breaks.append("forcing harness: the forcing changed no cell in %r (nothing compared)" % line)
+        n += len(rows) - 1
+        bad = [r for r in rows[1:] if int(r[3]) > 0]
+        if bad:
+            f = line.split()
+            ck.violation("C10 fails on the real code: the turbulence forcing of one hydro step applied to %sx%sx%s cells in %sx%sx%s subgrids gives different cell states with %s threads than sequentially: "
+                         "%d of %d repetitions differ, up to %s of %s cells (one thread is bit-identical)" % (f[0], f[1], f[2], f[3], f[4], f[5], f[6], len(bad), len(rows) - 1, max(int(r[3]) for r in bad), k[0][2]),
+                         {"kind": "forcing_threads", "line": line}, key={"kind": "forcing_threads"})
+    ck.coverage["turbulence_forcing_thread_runs"] = n
+    return n
+
+
 def run(ck):
     ck.prove()
     _deps(ck)
+    forcing_threads(ck)
     d = ck.scratch
     ok = build(ck, d)
     cov = ck.coverage
@@ -477,6 +510,11 @@ def replay(ck, rp):
     d = ck.scratch
     r = rp["replay"]
     kind = r.get("kind")
+    if kind == "forcing_threads":
+        forcing_threads(ck, only=r["line"])
+        bad = [v for v in ck.violations if v["key"].get("kind") == "forcing_threads"]
+        print("REPLAY:", bad[0]["what"] if bad else "property holds on this input")
+        return 1 if bad else 0
     if kind == "layouts":
         c04.build(ck, d, want=("step",))
         st = c04.step_evidence(ck, d, [[r["cfg_a"], r["cfg_b"]]], compare_layouts=True)
